@@ -1246,5 +1246,141 @@ theorem frozen_fixed {p : Proc N} {prog : List (Instr N)} (hwf : wfProc p = true
 
 end frozen
 
+/-! ## 8. Reachable states and the prefixes of a diagram -/
+
+section reach
+
+omit [LT N] [DecidableRel (α := N) (· < ·)] in
+/-- every instruction issued by the issue loop is hosted at its end -/
+theorem issueLoop_hosts (ports : List (UnitM N)) (l : List (Instr N)) (u : Util N) (mem : Bool) (e0 : Nat) :
+    ∀ i, e0 ≤ i → i < (issueLoop ports l u mem e0).2 →
+      ∃ n, (⟨i, .U⟩ : HI) ∈ (issueLoop ports l u mem e0).1.get n := by
+  induction l generalizing u mem e0 with
+  | nil => intro i h1 h2; simp only [issueLoop] at h2; omega
+  | cons ins rest ih =>
+    intro i h1 h2
+    unfold issueLoop at h2 ⊢
+    cases ht : tryPorts ins.cap e0 ports u mem with
+    | none => simp only [ht] at h2; omega
+    | some r =>
+      simp only [ht] at h2 ⊢
+      obtain ⟨pre, port, post, _, _, _, rfl⟩ := tryPorts_eq_some ht
+      by_cases hi : i = e0
+      · subst hi
+        obtain ⟨l', h1', _⟩ := issueLoop_get_prefix ports rest (u.set port.name (u.get port.name ++ [⟨i, .U⟩]))
+          (mem || decide (ins.cap ∈ port.acl)) (i + 1) port.name
+        refine ⟨port.name, ?_⟩
+        rw [h1', Util.get_set_eq]; simp
+      · exact ih _ _ (e0 + 1) i (by omega) h2
+
+theorem fillCycle_hosts (p : Proc N) (prog : List (Instr N)) (old : Util N) (e : Nat) :
+    ∀ i, e ≤ i → i < (fillCycle p prog old e).2 → ∃ n, (⟨i, .U⟩ : HI) ∈ (fillCycle p prog old e).1.get n := by
+  rw [fillCycle_unfold]; exact issueLoop_hosts _ _ _ _ _
+
+/-- states reachable from the initial state by productive cycles -/
+inductive Reach (p : Proc N) (prog : List (Instr N)) : SimState N → Prop
+  | init : Reach p prog (initState prog)
+  | step {s s' : SimState N} : Reach p prog s → runCycle p prog s = .ok (some s') → Reach p prog s'
+
+theorem Reach.termInv {p : Proc N} {prog : List (Instr N)} (hwf : wfProc p = true) {s : SimState N}
+    (h : Reach p prog s) : TermInv p prog s := by
+  induction h with
+  | init => exact TermInv.init p prog
+  | step _ hr ih => exact ih.step hwf hr
+
+/-- every issued instruction appears in some recorded cycle -/
+def Appears (s : SimState N) : Prop :=
+  ∀ i, i < s.entered → ∃ r ∈ s.table, ∃ n, i ∈ (r.get n).map (·.idx)
+
+theorem Reach.appears {p : Proc N} {prog : List (Instr N)} {s : SimState N} (h : Reach p prog s) : Appears s := by
+  induction h with
+  | init => intro i hi; simp [initState] at hi
+  | @step s s' _ hr ih =>
+    obtain ⟨lab, qs, hlab, _, _, rfl⟩ := runCycle_eq_some hr
+    intro i hi
+    simp only at hi ⊢
+    by_cases hlt : i < s.entered
+    · obtain ⟨r, hr', n, hn⟩ := ih i hlt
+      exact ⟨r, List.mem_cons_of_mem _ hr', n, hn⟩
+    · obtain ⟨n, hn⟩ := fillCycle_hosts p prog s.util s.entered i (by omega) hi
+      refine ⟨lab.1, List.mem_cons_self, n, ?_⟩
+      rw [labelAll_get_idx hlab n]
+      exact List.mem_map.2 ⟨_, hn, rfl⟩
+
+/-- every prefix of the table of a reachable state is the table of a reachable state that made a productive cycle -/
+theorem Reach.prefix {p : Proc N} {prog : List (Instr N)} {s : SimState N} (h : Reach p prog s) :
+    ∀ t, t < s.table.length → ∃ s0 s1, Reach p prog s0 ∧ runCycle p prog s0 = .ok (some s1) ∧
+      s0.table.reverse = s.table.reverse.take t ∧ s1.table.reverse = s.table.reverse.take (t + 1) := by
+  induction h with
+  | init => intro t ht; simp [initState] at ht
+  | @step s s' hs hr ih =>
+    obtain ⟨lab, qs, hlab, _, _, e⟩ := runCycle_eq_some hr
+    have htab : s'.table.reverse = s.table.reverse ++ [lab.1] := by rw [e]; simp
+    intro t ht
+    have hlen : s'.table.length = s.table.length + 1 := by rw [e]; simp
+    rw [htab]
+    by_cases hlt : t < s.table.length
+    · obtain ⟨s0, s1, h0, hr0, e0, e1⟩ := ih t hlt
+      refine ⟨s0, s1, h0, hr0, ?_, ?_⟩
+      · rw [e0, List.take_append_of_le_length (by simp; omega)]
+      · rw [e1, List.take_append_of_le_length (by simp; omega)]
+    · have ht' : t = s.table.length := by omega
+      subst ht'
+      refine ⟨s, s', hs, hr, ?_, ?_⟩
+      · rw [List.take_append_of_le_length (by simp), List.take_of_length_le (by simp)]
+      · rw [htab, List.take_of_length_le (by simp)]
+
+theorem Diagram_reach {p : Proc N} {prog : List (Instr N)} {tbl : List (Util N)} {stalled : Bool}
+    (h : Diagram p prog tbl stalled) :
+    ∃ s, Reach p prog s ∧ tbl = s.table.reverse ∧ (stalled = true → runCycle p prog s = .ok none) ∧
+      (stalled = false → s.finished prog = true) :=
+  simulate_induction (Reach p prog) Reach.init (fun _ _ h hr => h.step hr) tbl stalled h
+
+omit [LT N] [DecidableRel (α := N) (· < ·)] in
+/-- `i` is hosted by a unit of the processor in some row `t' < k` of the diagram -/
+def AppearsBefore (units : List (UnitM N)) (tbl : List (Util N)) (i k : Nat) : Prop :=
+  ∃ t', t' < k ∧ t' < tbl.length ∧
+    ∃ u ∈ units, ∃ h ∈ (tbl.getD t' ([] : List (N × List HI))).get u.name, h.idx = i
+
+/-- in the state whose table is the first `k` rows of the diagram, the issued instructions are exactly those
+appearing in these rows -/
+theorem prefix_entered {p : Proc N} {prog : List (Instr N)} (hwf : wfProc p = true) {s : SimState N}
+    (h : Reach p prog s) {tbl : List (Util N)} {k : Nat} (htab : s.table.reverse = tbl.take k) :
+    ∀ i, i < s.entered ↔ AppearsBefore p.allUnits tbl i k := by
+  have hT := h.termInv hwf
+  have hmem : ∀ r, r ∈ s.table ↔ r ∈ tbl.take k := by
+    intro r; rw [← htab, List.mem_reverse]
+  intro i
+  constructor
+  · intro hi
+    obtain ⟨r, hr, n, hn⟩ := h.appears i hi
+    obtain ⟨j, hj, rfl⟩ := List.mem_take_iff_getElem.1 ((hmem r).1 hr)
+    obtain ⟨x, hx, hxi⟩ := List.mem_map.1 hn
+    have hname := (hT.rows _ hr).names n (List.ne_nil_of_mem hx)
+    obtain ⟨u, hu, rfl⟩ := List.mem_map.1 hname
+    have hjT : j < tbl.length := by omega
+    refine ⟨j, by omega, hjT, u, hu, x, ?_, hxi⟩
+    rw [List.getD_eq_getElem?_getD, List.getElem?_eq_getElem hjT]
+    exact hx
+  · rintro ⟨t', h1, h2, u, hu, x, hx, rfl⟩
+    rw [List.getD_eq_getElem?_getD, List.getElem?_eq_getElem h2] at hx
+    have : tbl[t'] ∈ s.table := (hmem _).2 (List.mem_take_iff_getElem.2 ⟨t', by omega, rfl⟩)
+    exact (hT.rows _ this).idx_lt u.name x hx
+
+/-- … and its current record is the last of these rows (the empty record if there is none) -/
+theorem prefix_util {p : Proc N} {prog : List (Instr N)} (hwf : wfProc p = true) {s : SimState N}
+    (h : Reach p prog s) {tbl : List (Util N)} {k : Nat} (hk : k ≤ tbl.length)
+    (htab : s.table.reverse = tbl.take k) : s.util = prevRow tbl k := by
+  have hT := h.termInv hwf
+  have e : s.table = (tbl.take k).reverse := by rw [← htab, List.reverse_reverse]
+  rw [hT.util_eq, e, List.head?_reverse, List.getLast?_eq_getElem?, List.length_take, prevRow]
+  have : min k tbl.length = k := by omega
+  rw [this]
+  by_cases h0 : k = 0
+  · subst h0; simp
+  · rw [if_neg h0, List.getElem?_take_of_lt (by omega), List.getD_eq_getElem?_getD]
+
+end reach
+
 end Term
 end ProcSim
